@@ -2,3 +2,4 @@
 pub mod snf;
 pub mod linalg;
 pub mod iso;
+pub mod orb2;
